@@ -96,7 +96,14 @@ func (p *entryProv) get(u *Unit, key string) string {
 	if key == allocKey {
 		u.assert("(>= " + n + " 0)")
 	}
-	u.heapTyping(key, n)
+	if key != allocKey && p.tag == "entry" {
+		u.heapTypingA(key, n, p.get(u, allocKey))
+	} else {
+		u.heapTyping(key, n)
+	}
+	if strings.HasPrefix(key, "Res.") && p.tag == "entry" {
+		u.assert("(= " + n + " (mk-ifc 0 0))")
+	}
 	if strings.HasPrefix(key, "Held.") && p.tag == "entry" {
 		if u.entryHeldReady {
 			u.entryHeldAssume(key, n)
@@ -139,7 +146,9 @@ func (p *havocProv) get(u *Unit, key string) string {
 		u.assert("(>= " + n + " " + p.prev.get(u, key) + ")")
 	}
 	p.cache[key] = n
-	u.heapTyping(key, n)
+	if key != allocKey {
+		u.heapTypingA(key, n, p.get(u, allocKey))
+	}
 	if p.finalized {
 		p.frameAxiom(u, key, n)
 	}
@@ -307,7 +316,8 @@ func (u *Unit) entryHeldAssume(key, n string) {
 // threadLocalKey: ghost lock state, local cells and iteration ghosts cannot be changed by code
 // the function calls without a contract (see havocAll)
 func threadLocalKey(k string) bool {
-	return strings.HasPrefix(k, "Held.") || strings.HasPrefix(k, "Blk.") || strings.HasPrefix(k, "cell.") || strings.HasPrefix(k, "iter.")
+	return strings.HasPrefix(k, "Held.") || strings.HasPrefix(k, "Blk.") || strings.HasPrefix(k, "cell.") || strings.HasPrefix(k, "iter.") ||
+		strings.HasPrefix(k, "Calls.") || strings.HasPrefix(k, "Arg.") || strings.HasPrefix(k, "Res.")
 }
 
 // frameKeyOK: keys subject to the function-level frame (object-indexed data heap keys not
@@ -329,4 +339,32 @@ func (u *Unit) frameFact(key, cur string) string {
 		cond += " (not (= r!f " + x + "))"
 	}
 	return fmt.Sprintf("(forall ((r!f Int)) (! (=> (and %s) (= (select %s r!f) (select %s r!f))) :pattern ((select %s r!f))))", cond, cur, u.entryState.get(u, key), cur)
+}
+
+// allocProv: heap after a call to an allocating contract callee: objects that existed before the
+// call keep their state (unless overridden by the modifies clause), the state of objects
+// allocated by the callee is constrained only by its postcondition.
+type allocProv struct {
+	tag      string
+	prev     *state
+	allocPre string
+	cache    map[string]string
+}
+
+func (p *allocProv) get(u *Unit, key string) string {
+	if t, ok := p.cache[key]; ok {
+		return t
+	}
+	srt := u.keySort[key]
+	if key == allocKey || threadLocalKey(key) || !strings.HasPrefix(srt, "(Array Int ") {
+		t := p.prev.get(u, key)
+		p.cache[key] = t
+		return t
+	}
+	n := q(key + "@" + p.tag)
+	u.emit("(declare-const %s %s)", n, srt)
+	old := p.prev.get(u, key)
+	u.assert(fmt.Sprintf("(forall ((r Int)) (! (=> (<= r %s) (= (select %s r) (select %s r))) :pattern ((select %s r))))", p.allocPre, n, old, n))
+	p.cache[key] = n
+	return n
 }
